@@ -346,7 +346,12 @@ def cmdline_dict(path: str) -> T.Optional[T.Dict[str, T.Any]]:
     try:
         cfg = cmdline.CmdLineFileParser()
         cfg.read(path)
-        return {'options': dict(cfg['options']), 'properties': dict(cfg['properties'])}
+        import ast
+        props = dict(cfg['properties'])
+        for k in ('cross_file', 'native_file'):     # read_cmd_line_file evaluates these as Python literals
+            if not isinstance(ast.literal_eval(props.get(k, '[]')), list):
+                return None
+        return {'options': dict(cfg['options']), 'properties': props}
     except Exception:
         return None
 
